@@ -38,6 +38,8 @@ def expr_text(e):
         return str(e[1]) if e[1] >= 0 else f"({e[1]})"
     if t == "var":
         return e[1]
+    if t == "egofoo":      # the property of whatever object `ego` names at this point of the program
+        return "ego.foo"
     if t == "drange":
         return f"DiscreteRange({expr_text(e[1])}, {expr_text(e[2])})"
     if t == "drangeh":  # constant bounds in half units (fractional end points)
@@ -71,6 +73,7 @@ def cond_text(c):
 
 def to_scenic(ast):
     lines = [PRELUDE]
+    nobj = 0
     for s in ast:
         if s[0] == "let":
             lines.append(f"{s[1]} = {expr_text(s[2])}")
@@ -82,7 +85,10 @@ def to_scenic(ast):
             else:
                 lines.append(f"require[{float(s[1])}] {cond_text(s[2])}")
         elif s[0] == "object":
-            lines.append(f"ego = new Object with foo {expr_text(s[1])}")
+            # (a program may assign `ego` several times: every object stays in the scene, `ego` names the last)
+            at = "" if nobj == 0 else f"at ({10 * nobj}, 0), "
+            lines.append(f"ego = new Object {at}with foo {expr_text(s[1])}")
+            nobj += 1
     return "\n".join(lines) + "\n"
 
 
@@ -122,6 +128,10 @@ def to_prog(ast, max_iter):
             if e[1] not in env:
                 raise IllFormed("unbound " + e[1])
             return env[e[1]]
+        if t == "egofoo":
+            if "ego.foo" not in env:
+                raise IllFormed("no ego yet")
+            return env["ego.foo"]
         if t == "drange":
             a, b = ev(e[1]), ev(e[2])
             return node("drange", a=[a, b], lo=min(rng_[a][0], rng_[b][1]), hi=max(rng_[b][1], rng_[a][0]))
@@ -248,9 +258,10 @@ def to_prog(ast, max_iter):
             outnames.append(["param", s[1]])
         elif s[0] == "object":
             n = ev(s[1])
+            env["ego.foo"] = n
+            outnames.append(["prop", "foo", len(obj_roots)])
             obj_roots.append(n)
             outs.append(n)
-            outnames.append(["prop", "foo"])
         elif s[0] == "require":
             c = evc(s[2])
             pr = Fraction(1) if s[1] is None else Fraction(s[1])
@@ -442,6 +453,40 @@ def generate(seed, count, sizes=(1, 2, 3, 4), max_branches=400, max_abs=60):
         info["ast"] = repr(ast)
         out.append((to_scenic(ast), prog, info))
     return out, dropped
+
+
+def ego_core():
+    """Programs that assign `ego` twice with requirements, variables and parameters mentioning `ego.foo` in
+    between: an expression refers to the object `ego` named WHEN THE STATEMENT WAS EXECUTED."""
+    E = ("egofoo",)
+    X = ("var", "x")
+    firsts = [("drange", ("lit", 0), ("lit", 3)), ("discrete", [(("lit", 0), 1), (("lit", 2), 3)])]
+    seconds = [("drange", ("lit", 0), ("lit", 3)), ("drange", ("lit", 0), E), ("bin", "add", E, ("drange", ("lit", 0), ("lit", 1))),
+               ("uniform", [E, ("lit", 5)])]
+    shapes = [
+        lambda f, g, pr: [("object", f), ("require", pr, ("cmp", "ge", E, ("lit", 2))), ("object", g)],
+        lambda f, g, pr: [("object", f), ("require", pr, ("cmp", "ge", E, ("lit", 2))), ("object", g),
+                          ("require", None, ("cmp", "le", E, ("lit", 2)))],
+        lambda f, g, pr: [("object", f), ("let", "x", E), ("object", g), ("require", pr, ("cmp", "lt", X, E))],
+        lambda f, g, pr: [("object", f), ("param", "p", E), ("require", pr, ("cmp", "ne", E, ("lit", 0))), ("object", g),
+                          ("param", "q", E)],
+    ]
+    out = []
+    for f in firsts:
+        for g in seconds:
+            for shape in shapes:
+                for pr in (None, Fraction(1, 2)):
+                    ast = shape(f, g, pr)
+                    try:
+                        prog, info = to_prog(ast, 1)
+                    except IllFormed:
+                        continue
+                    cells = 2 if pr is not None else 1
+                    prog["maxIter"] = choose_max_iter(info, cells)
+                    info["thresholds"] = [str(pr)] if pr is not None else []
+                    info["ast"] = repr(ast)
+                    out.append((to_scenic(ast), prog, info))
+    return out
 
 
 def exhaustive_core():
